@@ -436,10 +436,18 @@ def run_case(case):
         first = None
         if case.get('edit_calendars'):
             first = make()
+            # ... and the WBS itself is not the same either: the first calculation sees larger estimates on the leaves
+            # (same Task objects, changed in place and put back), so whatever a scheduler or resource remembers per
+            # task from an earlier calculation is stale in the observed one
+            bumped = [(t, t.estimate) for t in wbs.tasks if not t.children and t.estimate is not None]
+            for t, e in bumped:
+                t.estimate = e + 8
             try:
                 first.calc(wbs)
             except BaseException:  # noqa
                 pass
+            for t, e in bumped:
+                t.estimate = e
             for name, cal in case['edit_calendars']:
                 if name in holidays:
                     lrng = _random.Random('%s/%s' % (name, case['pbound']))
